@@ -22,7 +22,20 @@ def findings():
     return "\n".join(out)
 
 def seeded():
-    out = ["| seeded change | what it does (sub-agent's summary) | needs | checks run -> exit (1 = VIOLATION reported) | note |", "|---|---|---|---|---|"]
+    import collections
+    cnt = collections.Counter()
+    for d in sorted(glob.glob(os.path.join(V, "seeded", "*"))):
+        n = open(os.path.join(d, "note.txt")).read() if os.path.exists(os.path.join(d, "note.txt")) else ""
+        if "NOT a violation" in n:
+            cnt["delivered change does not violate the stated property"] += 1
+        elif "MISSED" in n:
+            cnt["missed on the first run, caught after the workload was widened"] += 1
+        elif "caught" in n:
+            cnt["caught on the first run"] += 1
+        else:
+            cnt["unclassified"] += 1
+    head = ["Totals over %d seeded changes: " % sum(cnt.values()) + "; ".join("%d %s" % (v, k) for k, v in sorted(cnt.items(), key=lambda kv: -kv[1])) + ".", ""]
+    out = head + ["| seeded change | what it does (sub-agent's summary) | needs | checks run -> exit (1 = VIOLATION reported) | note |", "|---|---|---|---|---|"]
     for d in sorted(glob.glob(os.path.join(V, "seeded", "*"))):
         sid = os.path.basename(d)
         try:
